@@ -4,6 +4,9 @@ reverts, and records the outcome in seeded/<id>/meta.json and seeded/MATRIX.md."
 import json, os, re, subprocess, sys, time
 
 V = "/verif"
+# MATRIX_REPO: a scratch git worktree of /repo at the same commit (e.g. /tmp/wt/clean) so that /repo itself stays untouched while a long
+# matrix run is in progress; default is /repo itself
+R = os.environ.get("MATRIX_REPO", "/repo")
 ids = sys.argv[1:] or sorted(d for d in os.listdir(f"{V}/seeded") if os.path.isdir(f"{V}/seeded/{d}"))
 notes = json.load(open(f"{V}/seeded/NOTES.json")) if os.path.exists(f"{V}/seeded/NOTES.json") else {}
 alt = json.load(open(f"{V}/seeded/ALT_CHECKS.json")) if os.path.exists(f"{V}/seeded/ALT_CHECKS.json") else {}
@@ -12,8 +15,8 @@ for sid in ids:
     d = f"{V}/seeded/{sid}"
     agent = json.load(open(f"{d}/meta.agent.json")) if os.path.exists(f"{d}/meta.agent.json") else {}
     prop = agent.get("property") or ("C" + sid[1:3])
-    assert subprocess.run(["git", "-C", "/repo", "status", "--porcelain", "--untracked-files=no"], capture_output=True, text=True).stdout == "", "/repo dirty"
-    ap = subprocess.run(["git", "-C", "/repo", "apply", f"{d}/patch.diff"], capture_output=True, text=True)
+    assert subprocess.run(["git", "-C", R, "status", "--porcelain", "--untracked-files=no"], capture_output=True, text=True).stdout == "", f"{R} dirty"
+    ap = subprocess.run(["git", "-C", R, "apply", f"{d}/patch.diff"], capture_output=True, text=True)
     t0 = time.time()
     used = prop
     if ap.returncode != 0:
@@ -24,13 +27,13 @@ for sid in ids:
             # property whose harness reaches the changed behaviour (e.g. thread interleavings are explored by C07, not by C04)
             for cand in [prop] + alt.get(sid, []):
                 p = subprocess.run([f"{V}/check", cand, "--tier", "quick", "--no-evidence"], capture_output=True, text=True, cwd=V, timeout=1800,
-                                   env=dict(os.environ, VERIF_VERBOSE="1"))
+                                   env=dict(os.environ, VERIF_VERBOSE="1", VERIF_REPO=R))
                 out, rc, used = p.stdout, p.returncode, cand
                 if rc == 1 and "VIOLATION property=" in out:
                     break
         finally:
-            subprocess.run(["git", "-C", "/repo", "checkout", "-q", "--", "."])
-            subprocess.run("find /repo -name __pycache__ -type d -prune -exec rm -rf {} +", shell=True)
+            subprocess.run(["git", "-C", R, "checkout", "-q", "--", "."])
+            subprocess.run(f"find {R} -name __pycache__ -type d -prune -exec rm -rf {{}} +", shell=True)
     sigs = re.findall(r"^  \[class\] (\S+) ::", out or "", re.M)
     detected = rc == 1 and "VIOLATION property=" in out
     meta = {
@@ -41,7 +44,8 @@ for sid in ids:
         "files": agent.get("files"),
         "origin": "written by an independent sub-agent that saw only the property text and a scratch worktree of /repo",
         "confirmed": "tools/verify_seed.sh: repository suite (tools/baseline.py) still passes with the change; demo_test.py fails with it and passes without it",
-        "what_i_ran": f"git -C /repo apply seeded/{sid}/patch.diff; ./check {used} --tier quick --no-evidence; git -C /repo checkout -- .",
+        "what_i_ran": f"git -C {R} apply seeded/{sid}/patch.diff; " + ("" if R == "/repo" else f"VERIF_REPO={R} ") + f"./check {used} --tier quick --no-evidence; git -C {R} checkout -- ."
+        + ("" if R == "/repo" else f"  ({R} = scratch git worktree of /repo at the same commit)"),
         "detected_by_check": bool(detected),
         "detected_by": used if detected else None,
         "exit_code": rc,
